@@ -15,6 +15,7 @@
 from .worker import Worker, WorkerType, WorkerTerminatedError
 
 import os
+import sys
 import signal
 import threading
 
@@ -124,8 +125,9 @@ class ThreadWorker(Worker):
         if self._set_names:
             setthreadtitle(self.name, self)
 
-        self._startup_sync.set()
         try:
+            # from this point on the parent can call terminate at any moment
+            self._startup_sync.set()
             assert self.is_child
             self._init_child()
             self._result = (True, self.do_work())
@@ -133,6 +135,9 @@ class ThreadWorker(Worker):
             logger.exception('Exception occurred while running the main function')
             self._result = (False, e)
         finally:
+            if self._result is None:
+                # terminate request arrived while we were handling a different exception
+                self._result = (False, sys.exc_info()[1])
             self._cleanup()
 
     def _cleanup(self):
